@@ -204,10 +204,53 @@ func c02Watch(f poly.Feature, withStruct bool) string {
 	if seq1 != seq2 || loc1 != loc2 || built1 != built2 {
 		return "mutated|" + seq1 + "|" + seq2 + "|" + loc1 + "|" + loc2 + "|" + built1 + "|" + built2
 	}
+	// A third observation after the PARENT was edited in place to a different sequence of the same length
+	// (c02Sigma: A<->C, G<->T letter by letter, which commutes with complementation, so the feature must now
+	// read c02Sigma of what it read before, whatever the location tree is); the parent is restored afterwards.
+	// A feature that keeps answering from the earlier parent (a cache keyed by the parent's address or length,
+	// seeded change C02-l) is reported as "mutated|...stale-parent".
+	// (only for parents over the 15 IUPAC codes: U/u complement to A and would not commute)
+	if ps := f.ParentSequence; ps != nil && ps.Sequence != "" && strings.Trim(ps.Sequence, "ACGTRYSWKMBDHVNacgtryswkmbdhvn") == "" {
+		old := ps.Sequence
+		ps.Sequence = c02Sigma(old)
+		seq3 := f.GetSequence()
+		ps.Sequence = old
+		seq4 := f.GetSequence()
+		if seq3 != c02Sigma(seq1) || seq4 != seq1 {
+			return "mutated|" + seq1 + "|" + seq3 + "|" + seq4 + "|stale-parent"
+		}
+	}
 	if withStruct {
 		return "ok|" + seq1 + "|" + loc1 + "|" + built1
 	}
 	return "ok|" + seq1 + "|" + built1
+}
+
+// c02Sigma exchanges A with C and G with T (either case) and leaves every other byte alone: for every letter x,
+// complement(c02Sigma(x)) == c02Sigma(complement(x)).
+func c02Sigma(s string) string {
+	b := []byte(s)
+	for i, c := range b {
+		switch c {
+		case 'A':
+			b[i] = 'C'
+		case 'C':
+			b[i] = 'A'
+		case 'G':
+			b[i] = 'T'
+		case 'T':
+			b[i] = 'G'
+		case 'a':
+			b[i] = 'c'
+		case 'c':
+			b[i] = 'a'
+		case 'g':
+			b[i] = 't'
+		case 't':
+			b[i] = 'g'
+		}
+	}
+	return string(b)
 }
 
 // c02Observe: the observations on a parsed feature, guarded on their own.
